@@ -101,6 +101,10 @@ public:
 
     /** Returns the number of subexpression. */
     size_t get_size() const;
+#ifdef UTAP_VERIF
+    /** Verification hook (compiled only with -DUTAP_VERIF): the number of sub-expressions actually stored in the node, independent of get_size(). */
+    size_t verif_stored_children() const;
+#endif
 
     /** Returns the position of this expression. */
     const position_t& get_position() const;
